@@ -98,6 +98,11 @@ pub fn creation_cases(uni: &UniCfg, ctor: u64) -> Vec<Case> {
         libc::O_CREAT | libc::O_RDWR,
         libc::O_CREAT | libc::O_EXCL | libc::O_WRONLY,
         libc::O_EXCL | libc::O_RDONLY,
+        // with O_PATH the kernel's plain openat() ignores creation flags silently, openat2 does not:
+        // the documented refusal must not depend on it
+        libc::O_PATH | libc::O_CREAT,
+        libc::O_PATH | libc::O_CREAT | libc::O_EXCL,
+        libc::O_PATH | libc::O_TMPFILE,
     ];
     let mut lookups: Vec<(Base, String, i32, bool)> = Vec::new();
     for (base, ent) in [(Base::SelfP, "cwd"), (Base::SelfP, "root"), (Base::SelfP, "fd/{RFD}"), (Base::SelfP, "exe"), (Base::SelfP, "status"), (Base::SelfP, "fd"), (Base::ThreadSelf, "cwd"), (Base::Root, "self"), (Base::Root, "sys"), (Base::SelfP, "newfile")] {
